@@ -452,8 +452,8 @@ fn jobs(tier: Tier) -> Vec<C04Job> {
     let len = if tier == Tier::Quick { 4 } else { 5 };
     use BasePolicy::*;
     let plan: Vec<(BasePolicy, usize)> = match tier {
-        Tier::Quick => vec![(Eager, 0), (LazyIo, 0), (Alternate, 0)],
-        Tier::Thorough => vec![(Eager, 1), (LazyIo, 1), (Alternate, 1)],
+        Tier::Quick => vec![(Eager, 1), (LazyIo, 0), (Alternate, 0), (ClientFirst, 0)],
+        Tier::Thorough => vec![(Eager, 1), (LazyIo, 1), (Alternate, 1), (ClientFirst, 1)],
     };
     for woi in [true, false] {
         for tomb in [true, false] {
